@@ -103,12 +103,43 @@ func (b *verifBody) Close() error               { b.closed = true; return nil }
 var verifBodyBytes []byte
 
 func verifReadDecompressedBody(res *http.Response) ([]byte, error) { return verifBodyBytes, nil }
-func verifDecodeLatin1(r io.Reader) (string, error)                { return string(verifBodyBytes), nil }
-func verifEncodeLatin1(s string) ([]byte, error)                   { return []byte(s), nil }
+
+// Latin-1 contract: decoding maps byte b to the rune U+00bb (one UTF-8 byte below 0x80, two
+// bytes C2/C3 xx otherwise); encoding is its inverse.
+func verifDecodeLatin1(r io.Reader) (string, error) {
+	out := make([]byte, 0, 2*len(verifBodyBytes))
+	for _, b := range verifBodyBytes {
+		if b < 0x80 {
+			out = append(out, b)
+		} else {
+			out = append(out, 0xC0|b>>6, 0x80|b&0x3F)
+		}
+	}
+	return string(out), nil
+}
+
+func verifEncodeLatin1(s string) ([]byte, error) {
+	out := make([]byte, 0, len(s))
+	for i := 0; i < len(s); i++ {
+		c := s[i]
+		if c < 0x80 {
+			out = append(out, c)
+			continue
+		}
+		if (c == 0xC2 || c == 0xC3) && i+1 < len(s) && s[i+1]&0xC0 == 0x80 {
+			out = append(out, (c&0x03)<<6|s[i+1]&0x3F)
+			i++
+			continue
+		}
+		return nil, io.ErrUnexpectedEOF // not representable in Latin-1
+	}
+	return out, nil
+}
 func verifBuildInjection(s *Server, session *Session) string       { return "<T>" }
 
 func verifC20Filter(n int, alpha int) {
-	alphabets := []string{"</hHeEaAdDx", "<lLiInNkKsStTyYx", "<sScCrRiIpPtTx/"}
+	// every alphabet contains two bytes >= 0x80 (0xE9 and 0x80): "every original byte of any charset"
+	alphabets := []string{"</hHeEaAdDx\xe9\x80", "<lLiInNkKsStTyYx\xe9\x80", "<sScCrRiIpPtTx/\xe9\x80"}
 	body := verifString("body", n, alphabets[alpha])
 	verifBodyBytes = []byte(body)
 	orig := &verifBody{}
@@ -122,9 +153,10 @@ func verifC20Filter(n int, alpha int) {
 	}
 	out, rerr := io.ReadAll(res.Body)
 	verifAssert(rerr == nil, "c20: the new body is readable")
+	// the first marker in the ORIGINAL bytes (the window of 16 KiB is not reached by these bodies)
 	idx := -1
 	for i := n - 1; i >= 0; i-- {
-		if i < headBufferSize && verifMarkerAt(body, i) {
+		if verifMarkerAt(body, i) {
 			idx = i
 		}
 	}
